@@ -73,7 +73,7 @@ Definition push (k : skind) (ss : scopes) : scopes := mkS k [] :: ss.
 Fixpoint mapped_in_function (ss : scopes) (x : name) : option bool :=
   match ss with
   | [] => None
-  | s :: r => match contains (vars s) x with
+  | s :: r => match contains_decl (vars s) x with        (* since /repo 2f6e39c: entries of `modify x = ..` are passed over *)
               | Some c => Some c
               | None => if is_function s then None else mapped_in_function r x
               end
